@@ -45,6 +45,7 @@ const (
 	sharpByte    = '#'
 	charSlash    = '/'
 	charDone     = 'C'
+	charFirst    = 'K'
 	vectorByte   = 'V'
 	binaryByte   = 'b'
 	octByte      = 'o'
@@ -178,6 +179,18 @@ const (
 		"aaaaaaaaaaaaaaaaaaaaaaaaaaaaaaaa" + // 0xa0
 		"aaaaaaaaaaaaaaaaaaaaaaaaaaaaaaaa" + // 0xc0
 		"aaaaaaaaaaaaaaaaaaaaaaaaaaaaaaaaC" //  0xe0
+
+	// The character right after #\ is taken whatever it is: #\( #\; #\".
+	//   0123456789abcdef0123456789abcdef
+	charStartMode = "" +
+		"KKKKKKKKKKKKKKKKKKKKKKKKKKKKKKKK" + // 0x00
+		"KKKKKKKKKKKKKKKKKKKKKKKKKKKKKKKK" + // 0x20
+		"KKKKKKKKKKKKKKKKKKKKKKKKKKKKKKKK" + // 0x40
+		"KKKKKKKKKKKKKKKKKKKKKKKKKKKKKKKK" + // 0x60
+		"KKKKKKKKKKKKKKKKKKKKKKKKKKKKKKKK" + // 0x80
+		"KKKKKKKKKKKKKKKKKKKKKKKKKKKKKKKK" + // 0xa0
+		"KKKKKKKKKKKKKKKKKKKKKKKKKKKKKKKK" + // 0xc0
+		"KKKKKKKKKKKKKKKKKKKKKKKKKKKKKKKKK" //  0xe0
 
 	//   0123456789abcdef0123456789abcdef
 	intMode = "" +
@@ -681,6 +694,8 @@ func (r *reader) read(src []byte) {
 			r.mode = sharpMode
 		case charSlash:
 			r.tokenStart = r.pos + 1
+			r.mode = charStartMode
+		case charFirst:
 			r.mode = charMode
 		case charDone:
 			r.pushChar(src)
@@ -816,7 +831,7 @@ func (r *reader) read(src []byte) {
 			r.raise("escaped character not terminated")
 		case symbolMode:
 			r.raise("|symbol| not terminated")
-		case charMode:
+		case charStartMode, charMode:
 			r.pushChar(src)
 		case intMode:
 			r.pushInteger(src)
